@@ -280,6 +280,41 @@ func checkFanoutCoordinator(c *Ctx, rule string, b *Body, semNames map[string]bo
 		}
 		return true
 	})
+	// the fill may live in a helper: `h(sem)` where h's body is exactly such a loop over its channel parameter
+	fillCalls := map[ast.Node]bool{}
+	ast.Inspect(b.Block, func(n ast.Node) bool {
+		es, ok := n.(*ast.ExprStmt)
+		if !ok {
+			return true
+		}
+		call, ok := ast.Unparen(es.X).(*ast.CallExpr)
+		if !ok {
+			return true
+		}
+		fn, ok := calleeObj(info, call).(*types.Func)
+		if !ok {
+			return true
+		}
+		h := b.P.funcs[funcID(fn)]
+		if h == nil || h.Decl.Body == nil {
+			return true
+		}
+		for ai, a := range call.Args {
+			if !isSemExpr(b, a, semNames) {
+				continue
+			}
+			hsig := fn.Type().(*types.Signature)
+			if ai >= hsig.Params().Len() {
+				continue
+			}
+			pv := hsig.Params().At(ai)
+			if isFillLoopOver(h, pv) {
+				fillCalls[es] = true
+				fillSends[es] = true
+			}
+		}
+		return true
+	})
 	// (c1) token automaton: a slot is held at every go statement
 	const notHeld, held = 1, 2
 	var goBad []ast.Node
@@ -297,6 +332,9 @@ func checkFanoutCoordinator(c *Ctx, rule string, b *Body, semNames map[string]bo
 		node: func(n ast.Node, s uint64) uint64 {
 			if isSemSend(n) {
 				s = (s &^ notHeld) | held
+			}
+			if fillCalls[n] {
+				s = (s &^ noFill) | filled
 			}
 			if g, ok := n.(*ast.GoStmt); ok {
 				if !seenGo[g] {
@@ -597,4 +635,46 @@ func collectorChannels(b *Body) []collectorChan {
 		return true
 	})
 	return out
+}
+
+// isFillLoopOver: the body of h contains `for i := 0; i < cap(p); i++ { p <- struct{}{} }` for its parameter p and no go
+// statement.
+func isFillLoopOver(h *FuncInfo, pv *types.Var) bool {
+	info := h.Info()
+	found, hasGo := false, false
+	ast.Inspect(h.Decl.Body, func(n ast.Node) bool {
+		switch x := n.(type) {
+		case *ast.GoStmt:
+			hasGo = true
+		case *ast.ForStmt:
+			if x.Cond == nil || x.Post == nil || x.Init == nil {
+				return true
+			}
+			be, ok := ast.Unparen(x.Cond).(*ast.BinaryExpr)
+			if !ok || be.Op != token.LSS {
+				return true
+			}
+			call, ok := ast.Unparen(be.Y).(*ast.CallExpr)
+			if !ok || calleeID(info, call) != "builtin.cap" || len(call.Args) != 1 || !isVar(info, call.Args[0], pv) {
+				return true
+			}
+			as, ok := x.Init.(*ast.AssignStmt)
+			if !ok || len(as.Rhs) != 1 {
+				return true
+			}
+			if tv, ok := info.Types[as.Rhs[0]]; !ok || tv.Value == nil || tv.Value.String() != "0" {
+				return true
+			}
+			if inc, ok := x.Post.(*ast.IncDecStmt); !ok || inc.Tok != token.INC {
+				return true
+			}
+			for _, st := range x.Body.List {
+				if snd, ok := st.(*ast.SendStmt); ok && isVar(info, snd.Chan, pv) {
+					found = true
+				}
+			}
+		}
+		return true
+	})
+	return found && !hasGo
 }
